@@ -1,0 +1,52 @@
+package obykeyset
+
+import (
+	"strings"
+)
+
+// pipelineIDOfEmptyKey is the ID of a single empty key, which would otherwise be an empty ID without queue dir of its own
+const pipelineIDOfEmptyKey = `\e`
+
+// joinPipelineID builds a pipeline ID from key values
+//
+// ',' and '\' inside values are escaped by '\', in order for the ID to be unique and be split back by splitPipelineID
+func joinPipelineID(keys []string) string {
+	if len(keys) == 1 && keys[0] == "" {
+		return pipelineIDOfEmptyKey
+	}
+	sb := strings.Builder{}
+	for i, key := range keys {
+		if i > 0 {
+			sb.WriteByte(',')
+		}
+		for j := 0; j < len(key); j++ {
+			if key[j] == ',' || key[j] == '\\' {
+				sb.WriteByte('\\')
+			}
+			sb.WriteByte(key[j])
+		}
+	}
+	return sb.String()
+}
+
+// splitPipelineID splits a pipeline ID made by joinPipelineID back to key values
+func splitPipelineID(id string) []string {
+	if id == pipelineIDOfEmptyKey {
+		return []string{""}
+	}
+	keys := make([]string, 0, 4)
+	key := make([]byte, 0, len(id))
+	for i := 0; i < len(id); i++ {
+		switch c := id[i]; {
+		case c == '\\' && i+1 < len(id):
+			i++
+			key = append(key, id[i])
+		case c == ',':
+			keys = append(keys, string(key))
+			key = key[:0]
+		default:
+			key = append(key, c)
+		}
+	}
+	return append(keys, string(key))
+}
